@@ -108,6 +108,9 @@ pub enum Item {
     /// file name as written, style, white space after (must contain / start with a newline unless a negative case)
     Include { id: usize, name: String, style: IncStyle, ws_after: String },
     Use(Usage, String),
+    /// usage of the maker macro (`define MK_DEFINE(n, v) `define n v): its expansion is a `define, which takes effect.
+    /// `def` is the definition it produces (no formals, plain-token body); rendered exactly like `Use`
+    DefineVia(Usage, MacroDef, String),
     FileMacro(String),
     LineMacro { id: usize, ws_after: String },
     /// `resetall (kept)
@@ -313,7 +316,7 @@ pub fn render_items(items: &[Item], out: &mut String, side: &mut Side) {
                 }
                 out.push_str(ws_after);
             }
-            Item::Use(u, ws) => {
+            Item::Use(u, ws) | Item::DefineVia(u, _, ws) => {
                 render_usage(u, &[], out);
                 out.push_str(ws);
             }
